@@ -26,7 +26,7 @@ def pool():
     return UniV3Pool(WETH, OSQTH, 0.3, WETH)  # token0 = WETH = quote, base = oSQTH (as on mainnet)
 
 
-def make_frames(kind="eq", n=10, nf_const=None):
+def make_frames(kind="eq", n=10, nf_const=None, hook=None):
     """kind: 'eq' (flat ETH, mark = index), 'ne' (ramping ETH, spike in the last bars, mark != index)."""
     p = pool()
     if kind == "eq":
@@ -37,12 +37,20 @@ def make_frames(kind="eq", n=10, nf_const=None):
         eth = [Decimal(2000) + Decimal(15) * i for i in range(n)]
         eth[-1] = eth[-2] * Decimal("1.04")
     raw = uni.raw_frame(ticks, 2 * 10**18, 15 * 10**18, 5 * 10**21, open_tick=ticks[0])
+    if hook is not None:
+        raw = hook("squni.raw", raw)
     udata = uni.prepared(raw, p)
     osqth_eth = list(udata["price"])  # ETH per oSQTH at each bar as the pool sees it
+    # the market's own raw inputs: ETH price and (in the mark != index variant) the norm factor
+    sraw = pd.DataFrame(index=minutes(n), data={"WETH": eth, "norm_factor": [Decimal("0.46") - Decimal("0.0003") * i for i in range(n)]})
+    if hook is not None:
+        sraw = hook("squeeth.raw", sraw)
+    sraw = sraw.loc[udata.index[0]:udata.index[-1]]
+    eth = list(sraw["WETH"])
     if kind == "eq":
         nf = [o * Decimal(10**4) / e for o, e in zip(osqth_eth, eth)]
     else:
-        nf = [Decimal("0.46") - Decimal("0.0003") * i for i in range(n)]
+        nf = list(sraw["norm_factor"])
     sdata = pd.DataFrame(index=udata.index, data={"norm_factor": nf, "WETH": eth, "OSQTH": osqth_eth})
     from demeter.squeeth.helper import get_price_from_data
 
